@@ -22,9 +22,10 @@ from __future__ import annotations
 import gc
 
 from sim import aioloop as A
+from sim import isolate
 from sim import threads as T
 from sim.adata import Events, make_async_data
-from sim.core import Outcome, digest, exc_key, scrub
+from sim.core import Outcome, digest, exc_key, internal_leak, scrub
 from sim.envs import AE_MODES, CodeMemo, clear_process_caches
 from sim.tape import Tape
 from sim import workload as W
@@ -76,11 +77,13 @@ def setup() -> None:
     import jinja2.sandbox  # noqa: F401
     import jinja2.utils as U
 
+    T.TOGGLE_LINE[0] = True
     T.install(src, line_events=True, instr_classes=[U.LRUCache])
     U.Lock = T.SimLock
     T.neutralise_real_locks()
     A.install_policy().factory = _loop_factory
     _setup_done = True
+    isolate.start("props.c29")  # pre-warm a pristine interpreter for this worker's isolated references
 
 
 class Cfg:
@@ -142,6 +145,8 @@ def _render(env, entry, api, data, tape):
                 r = tmpl.render(**data)
             else:
                 r = str(tmpl.make_module(data))
+        if internal_leak(r):
+            return ("ok-with-template-internal-object", scrub(r)), tmpl
         return ("ok", scrub(r)), tmpl
     except T.SimAbort:
         raise
@@ -153,7 +158,31 @@ def _render(env, entry, api, data, tape):
         return k, None
 
 
+ISOLATED = [0]  # how many more references of this run are computed in pristine forked processes (sim/isolate.py)
+
+
+class _P:
+    def __init__(self, templates):
+        self.templates = templates
+
+
+def _reference_job(templates, cfgvals, entry, api, dseed, tg):
+    """Runs in a pristine interpreter (sim/isolate.py): one render, nothing before it in the process."""
+    A.install_policy().factory = _loop_factory
+    TG.clear()
+    TG.update(tg)
+    cfg = Cfg(*cfgvals)
+    zero = Tape(streams={})
+    env = cfg.env(_P(templates))
+    return _render(env, entry, api, _mk_data(dseed, cfg.is_async, zero), zero)[0]
+
+
 def _reference(cfg, P, entry, api, dseed):
+    if ISOLATED[0] > 0:
+        # this run's references come from pristine interpreters
+        ISOLATED[0] -= 1
+        return isolate.call("props.c29", "_reference_job", P.templates,
+                            (cfg.is_async, cfg.ae, cfg.lc, cfg.cache_size, False), entry, api, dseed, dict(TG))
     zero = Tape(streams={})
     env = cfg.env(P)
     return _render(env, entry, api, _mk_data(dseed, cfg.is_async, zero), zero)[0]
@@ -221,6 +250,11 @@ def run_history(tape, out, P, cfg):
         return results, None
 
     results, problem = execute(False)
+    if problem is None:
+        for i_, r_ in enumerate(results):
+            if r_ is not None and r_[0] == "ok-with-template-internal-object":
+                problem = ("template-internal-object-in-output", SYNC_APIS[ops[i_][2]])
+                break
     refs = {}
     mism = None
     seen = {}
@@ -380,6 +414,11 @@ def run_schedule(tape, out, P, cfg):
     refs = {}
     mism = None
     for tid, ops in enumerate(progs):
+        for j, r_ in enumerate(results[tid]):
+            if r_ is not None and r_[0] == "ok-with-template-internal-object" and not changed:
+                out.violate(("template-internal-object-in-output", SYNC_APIS[ops[j][1]]), thread=tid, op=j, got=r_)
+                return
+    for tid, ops in enumerate(progs):
         for j, (entry, api, di) in enumerate(ops):
             key = (entry, api, dseeds[di])
             if key not in refs:
@@ -416,6 +455,7 @@ def run_schedule(tape, out, P, cfg):
 
 def run(tape: Tape) -> Outcome:
     setup()
+    clear_process_caches()  # a run must not depend on the runs before it in this worker
     out = Outcome()
     kind = tape.draw(3)  # 0 history, 1-2 schedule
     is_async = tape.draw(4) == 3 if kind else bool(tape.draw(2))
@@ -436,6 +476,8 @@ def run(tape: Tape) -> Outcome:
     if v2 and "base" in P.templates:
         TG["base"] = 10 + v2  # 'base' is only ever extended (the child's context is used then), never included/imported
     cfg = Cfg(is_async, ae, lc, cache_size, True)
+    ISOLATED[0] = 99 if tape.draw(32) == 31 else 0  # one run in 32 takes ALL its references from pristine interpreters
+    out.count("runs_with_pristine_process_references", 1 if ISOLATED[0] else 0)
     gc_was = gc.isenabled()
     gc.disable()
     try:
